@@ -403,9 +403,23 @@ def sample(ctx, budget=1.0, hint=None, broken=None):
     cases = [(square(5 + 5j, 1), square(5 + 5j, 4), True, 'nested'), (square(20 + 20j, 1), square(5 + 5j, 4), False, 'disjoint'),
              (square(9 + 5j, 2), square(5 + 5j, 4), False, 'crossing'), (square(8 + 5j, 0.5), bow, True, 'in right lobe of a bow-tie'),
              (square(2 + 5j, 0.5), bow, True, 'in left lobe of a bow-tie'), (square(5 + 8.5j, 0.5), bow, False, 'in the notch of a bow-tie')]
+    def blob(c0, rad, kind='cubic'):
+        # a closed outline of four curves around c0 (a circle approximated by cubics, or a rounder-than-square of quadratics)
+        k_ = 0.5522847498 * rad
+        E, N, W, S_ = c0 + rad, c0 + 1j * rad, c0 - rad, c0 - 1j * rad
+        if kind == 'cubic':
+            return P.Path(P.CubicBezier(E, E + 1j * k_, N + k_, N), P.CubicBezier(N, N - k_, W + 1j * k_, W), P.CubicBezier(W, W - 1j * k_, S_ - k_, S_),
+                          P.CubicBezier(S_, S_ + k_, E - 1j * k_, E))
+        return P.Path(P.QuadraticBezier(E, E + 1j * rad, N), P.QuadraticBezier(N, N - rad, W), P.QuadraticBezier(W, W - 1j * rad, S_), P.QuadraticBezier(S_, S_ + rad, E))
+    for kd_ in ('cubic', 'quad'):
+        big = blob(5 + 5j, 4, kd_)
+        cases += [(blob(5 + 5j, 1.5, kd_), big, True, 'curved outlines, nested'), (blob(20 + 3j, 1.5, kd_), big, False, 'curved outlines, disjoint'),
+                  (blob(1.75 + 5j, 1.5, kd_), big, False, 'curved outlines crossing, start of the inner one inside'),
+                  (blob(8.5 + 5j, 1.5, kd_), big, False, 'curved outlines crossing, start of the inner one outside')]
     for inner, outer, want, nm in cases:
-        for k in range(int(ctx.n(2, 6) * budget)):
-            z = complex(r.uniform(-0.2, 0.2), r.uniform(-0.2, 0.2)) if k else 0
+        for k in range(int(ctx.n(2, 6) * budget) + (2 if nm.startswith('curved') else 0)):
+            z = complex(r.uniform(-0.2, 0.2), r.uniform(-0.2, 0.2)) if (k and not nm.startswith('curved')) else 0
+            # (the curved cases are asked the SAME question several times in a row: the answer may not depend on what was asked before)
             a_, b_ = inner.translated(z), outer
             n_eval += 1
             nontriv.add(('contained', nm))
